@@ -121,6 +121,7 @@ type convergeObs struct {
 	PassErrors     []string  `json:"pass_errors"`
 	End            convState `json:"end"`
 	Panics         []string  `json:"panics,omitempty"`
+	QuietErrors    []string  `json:"quiet_errors"` // errors returned by passes of the two final (quiet) rounds
 }
 
 // workload controllers: every Widget eventually reports Available for its current generation.
@@ -243,7 +244,7 @@ func init() {
 		} else {
 			os.Unsetenv(constants.ForceAdoptionEnvironmentVariable)
 		}
-		obs := convergeObs{PassRequests: []int{}, PassErrors: []string{}}
+		obs := convergeObs{PassRequests: []int{}, PassErrors: []string{}, QuietErrors: []string{}}
 		// disturbed prefix
 		for pi, ti := range sc.Schedule {
 			for _, d := range sc.Drift {
@@ -271,9 +272,13 @@ func init() {
 		quiet := 0
 		for obs.Rounds = 0; obs.Rounds < max && quiet < 2; obs.Rounds++ {
 			changedRound := 0
+			roundErrs := []string{}
 			for _, t := range sc.Targets {
-				_, ch, _ := runSetPass(s, scheme, t, nil)
+				_, ch, e := runSetPass(s, scheme, t, nil)
 				changedRound += ch
+				if e != "" {
+					roundErrs = append(roundErrs, e)
+				}
 			}
 			before := len(s.RawKeys())
 			rv0, _ := s.Counters()
@@ -287,6 +292,9 @@ func init() {
 			}
 			if quiet > 0 {
 				obs.QuietWrites += changedRound
+				obs.QuietErrors = append(obs.QuietErrors, roundErrs...)
+			} else {
+				obs.QuietErrors = []string{}
 			}
 		}
 		obs.Converged = quiet >= 2
